@@ -181,8 +181,15 @@ def r04_7(ck, F):
                   f"cancelling it there loses the value", b.loc(bad[0][-1]) if bad else None)
 
 
+def r04_8(ck, F):
+    import cancel
+    cancel.rule(ck, F, "R04.8", only=("chmux::receiver::", "rch::base::", "rch::mpsc::", "chmux::sender::", "chmux::credit::"), floor=5)
+
+
 def run(ck, F):
     for r in (r04_1, r04_2, r04_3, r04_4, r04_5, r04_6, r04_7):
         ck.run_rule(r)
     ck.run_rule(c01.r01_5)
     ck.run_rule(c01.r01_5b)
+    ck.run_rule(r04_8)
+    ck.run_rule(c01.r01_8)
